@@ -310,4 +310,114 @@ theorem addAll_geom (binOf : Int → Int → Nat → Nat → Nat) : ∀ (recs : 
     simp only [addAll]
     exact ⟨by rw [h1, h3], by rw [h2, h4]⟩
 
+theorem exists_rid_bound : ∀ recs : List CRec, ∃ R : Nat, ∀ r, r ∈ recs → r.rid < (R : Int) := by
+  intro recs
+  induction recs with
+  | nil => exact ⟨0, by intro r hr; cases hr⟩
+  | cons r rs ih =>
+    obtain ⟨R, h⟩ := ih
+    refine ⟨R + r.rid.toNat + 1, ?_⟩
+    intro x hx
+    rcases List.mem_cons.1 hx with rfl | hx
+    · omega
+    · have := h x hx; omega
+
+/-- a start position accepted by `validIndexPos` lies in `[-1, 2^(minShift+3·depth))`, for every geometry (from a
+shift of 64 on nothing is accepted) -/
+theorem validPos_range (ms d : Nat) (p : Int) (h : validPos ms d p = true) :
+    -1 ≤ p ∧ p < (2 : Int) ^ (ms + 3 * d) := by
+  simp only [validPos, Bool.and_eq_true, decide_eq_true_eq] at h
+  obtain ⟨h0, h1⟩ := h
+  unfold posBound at h1
+  split at h1
+  · exact ⟨h0, by omega⟩
+  · omega
+
+/-- the invariant with the geometry's bin limit, for every sequence of `Add` calls on a fresh index of depth ≤ 10 -/
+theorem addAll_repr_reg2bin (P : Int → Prop) (ms d : Nat) (hd : d ≤ 10) (i0 : CIndex)
+    (hi0 : i0.refs = [] ∧ i0.unmapped = none ∧ i0.isSorted = false) (hms0 : i0.minShift = ms) (hd0 : i0.depth = d)
+    (R : Nat) (recs : List CRec) (hrid : ∀ r, r ∈ recs → r.rid < (R : Int))
+    (hoff : ∀ r, r ∈ recs → P r.chunk.b ∧ P r.chunk.e) :
+    CIdxRepr P (csiBinLimit d) R recs.length (addAll Hts.Model.Coord.reg2bin i0 recs).1 := by
+  have init : CIdxRepr P (csiBinLimit d) R 0 i0 :=
+    { flag := hi0.2.2
+      nrefs := by rw [hi0.1]; simp
+      um := by intro m hm; rw [hi0.2.1] at hm; cases hm
+      refs := by intro r hr; rw [hi0.1] at hr; cases hr }
+  have := addAll_repr P Hts.Model.Coord.reg2bin (csiBinLimit d) R recs 0 i0
+    (by
+      intro r hr
+      refine ⟨?_, (hoff r hr).1, (hoff r hr).2, hrid r hr⟩
+      intro hv
+      rw [hms0, hd0] at hv ⊢
+      obtain ⟨h0, h1⟩ := validPos_range ms d r.start hv
+      exact reg2bin_lt_binLimit_any ms d hd r.start r.stop h0 h1)
+    init
+  simpa using this
+
 end Hts.Model.Csi
+
+namespace Hts.Model.IndexIO
+open Hts.Model.Index Hts.Model.Csi
+
+/-- the bin-count clause `CRefBounds.nb` (what `csi.readBins` checks: at most every bin of the geometry plus the
+pseudo-bin), bin numbers pairwise distinct and below the bin limit: for EVERY sequence of `Add` calls on a fresh
+index of depth ≤ 10, any minimum shift, no hypothesis on the records -/
+theorem csi_any_bin_count (ms d : Nat) (hd : d ≤ 10) (i0 : CIndex)
+    (hi0 : i0.refs = [] ∧ i0.unmapped = none ∧ i0.isSorted = false) (hms0 : i0.minShift = ms) (hd0 : i0.depth = d)
+    (recs : List CRec) (ref : CRef) (href : ref ∈ (Csi.addAll Hts.Model.Coord.reg2bin i0 recs).1.refs) :
+    (ref.bins.map (·.bin)).Nodup ∧ (∀ b, b ∈ ref.bins → b.bin < csiBinLimit d) ∧
+      ref.bins.length + (if ref.stats.isSome then 1 else 0) ≤ csiBinLimit d + 1 := by
+  obtain ⟨R, hR⟩ := exists_rid_bound recs
+  have inv := addAll_repr_reg2bin (fun _ => True) ms d hd i0 hi0 hms0 hd0 R recs hR (fun _ _ => ⟨trivial, trivial⟩)
+  have rr := inv.refs ref href
+  have hb : ∀ b, b ∈ ref.bins → b.bin < csiBinLimit d := fun b hb => (rr.bins b hb).bin
+  have hcount := nodup_length_le (csiBinLimit d) (ref.bins.map (·.bin)) rr.nodup
+    (by
+      intro x hx
+      obtain ⟨bn, hbn, rfl⟩ := List.mem_map.1 hx
+      exact hb bn hbn)
+  rw [List.length_map] at hcount
+  refine ⟨rr.nodup, hb, ?_⟩
+  split <;> omega
+
+/-- `CWF` after ANY sequence of `Add` calls on a fresh index, from sizes of the input alone -/
+theorem csi_any_cwf (ms d : Nat) (hd : d ≤ 10) (hgeom : ms + 3 * d ≤ 62)
+    (i0 : CIndex) (hi0 : i0.refs = [] ∧ i0.unmapped = none ∧ i0.isSorted = false)
+    (hms0 : i0.minShift = ms) (hd0 : i0.depth = d) (hver : i0.version = 1 ∨ i0.version = 2)
+    (haux : i0.aux.length < 2147483648)
+    (recs : List CRec) (hlen : recs.length < 2147483647)
+    (hrid : ∀ r, r ∈ recs → r.rid < 2147483647)
+    (hoff : ∀ r, r ∈ recs → OffOK r.chunk.b ∧ OffOK r.chunk.e) :
+    CWF (Csi.addAll Hts.Model.Coord.reg2bin i0 recs).1 := by
+  have inv := addAll_repr_reg2bin OffOK ms d hd i0 hi0 hms0 hd0 2147483647 recs
+    (by intro r hr; have := hrid r hr; omega) hoff
+  have hfix := Csi.addAll_fixed Hts.Model.Coord.reg2bin recs i0
+  obtain ⟨hms', hd'⟩ := addAll_geom Hts.Model.Coord.reg2bin recs i0
+  rw [hms0] at hms'
+  rw [hd0] at hd'
+  refine
+    { version := by rw [hfix.1]; exact hver
+      minShift := by rw [hms']; omega
+      geom := by rw [hms', hd']; exact hgeom
+      aux := by rw [hfix.2]; exact haux
+      nrefs := by have := inv.nrefs; omega
+      bounds := ?_
+      flag := by intro hf; rw [inv.flag] at hf; cases hf
+      um := by intro n hn; have := inv.um n hn; omega }
+  intro ref href
+  rw [hfix.1, hd']
+  have rr := inv.refs ref href
+  obtain ⟨_, hbinlt, hnb⟩ := csi_any_bin_count ms d hd i0 hi0 hms0 hd0 recs ref href
+  have hlim := csiBinLimit_lt d (by omega)
+  refine { nb := hnb, nb31 := ?_, bins := ?_, stats := ?_ }
+  · have := rr.len; split <;> omega
+  · intro bn hbn
+    have b := rr.bins bn hbn
+    have := b.records; have := b.chunks; have := hbinlt bn hbn
+    exact ⟨by omega, by omega, b.left, by omega, by omega, b.offs⟩
+  · intro s hs
+    obtain ⟨a, b, c, e⟩ := rr.stats s hs
+    exact ⟨a, b, by omega, by omega⟩
+
+end Hts.Model.IndexIO
